@@ -285,6 +285,14 @@ class Lexer:
             return True
         return False
 
+    def _index(self, text: str) -> int:
+        """Return the integer value of the array index literal _text_."""
+        try:
+            return int(text)
+        except ValueError:
+            # More digits than the interpreter is willing to convert.
+            self.error("array index out of range")
+
     def accept_path(self, *, carry: bool = False) -> None:
         self.path_stack.append(
             PathToken(
@@ -323,7 +331,7 @@ class Lexer:
                     self.path_stack[-1].stop = self.pos
                 elif self.env.shorthand_indexes:
                     if match := self.RE_INDEX.match(self.source, self.pos):
-                        self.path_stack[-1].path.append(int(match.group()))
+                        self.path_stack[-1].path.append(self._index(match.group()))
                         self.pos += match.end() - match.start()
                         self.start = self.pos
                         self.path_stack[-1].stop = self.pos
@@ -371,7 +379,7 @@ class Lexer:
                         self.path_stack[-1].stop = self.start
 
                 elif match := self.RE_INDEX.match(self.source, self.pos):
-                    self.path_stack[-1].path.append(int(match.group()))
+                    self.path_stack[-1].path.append(self._index(match.group()))
                     self.pos += match.end() - match.start()
                     self.start = self.pos
                     self.ignore_whitespace()
